@@ -118,6 +118,22 @@ class PipelineRecorder:
         processing.chain = chain
         self._saved.append((processing, "chain", orig_chain))
 
+        # pass markers: _multi_run_fixes is entered / left (no depth change: its rules stay visible)
+        orig_multi = main._multi_run_fixes
+
+        @functools.wraps(orig_multi)
+        def multi(*a, **k):
+            if rec.depth == 0:
+                rec.events.append({"marker": "pb"})
+            try:
+                return orig_multi(*a, **k)
+            finally:
+                if rec.depth == 0:
+                    rec.events.append({"marker": "pe"})
+
+        main._multi_run_fixes = multi
+        self._saved.append((main, "_multi_run_fixes", orig_multi))
+
     def uninstall(self):
         for owner, attr, orig in reversed(self._saved):
             setattr(owner, attr, orig)
